@@ -104,6 +104,6 @@ Sh(n, a, p, rr) == [N |-> n, A |-> a, P |-> p, R |-> rr]
 ShapesQuick == {Sh(1, 2, 1, 1), Sh(1, 3, 2, 2), Sh(2, 2, 2, 2), Sh(2, 2, 3, 1), Sh(3, 2, 2, 1), Sh(2, 3, 2, 1),
                 Sh(1, 2, 4, 3), Sh(2, 2, 1, 0), Sh(2, 3, 2, 2), Sh(3, 2, 2, 2)}
 ShapesThorough == ShapesQuick \cup {Sh(2, 2, 3, 3), Sh(3, 2, 3, 1), Sh(1, 4, 3, 3), Sh(2, 2, 4, 2), Sh(4, 2, 2, 1),
-                                   Sh(3, 3, 2, 1), Sh(3, 2, 3, 2), Sh(2, 3, 3, 2)}
+                                   Sh(3, 3, 2, 1), Sh(3, 2, 3, 2), Sh(2, 3, 3, 2), Sh(2, 4, 2, 2), Sh(4, 2, 2, 2)}
 ShapesMutant == {Sh(2, 2, 2, 2)}
 =============================================================================
